@@ -86,6 +86,7 @@ class Scanner:
         self.noncanonical_loops = []
         self.opaque = set()
         self.in_loop_decls = set()
+        self._seen_calls = set()
         # aggregate types whose brace-initialised assignment is split into per-field stores
         # (field order is asserted against the class facts by the rules that rely on it)
         self.agg_fields = {"vfps::SourceMap::hi": ["index", "weight"], "hi": ["index", "weight"]}
@@ -238,9 +239,9 @@ class Scanner:
             stack.extend(reversed(A.children(x)))
 
     def _call(self, x):
-        if x.get("_seen_call"):
+        if x["id"] in self._seen_calls:
             return
-        x["_seen_call"] = True
+        self._seen_calls.add(x["id"])
         g, l = self._ctx()
         args = [self._try(a) for a in x.get("args", [])]
         self.calls.append(Call(x.get("callee"), x, args, x.get("args", []), A.call_object(x), x["line"], g, l,
